@@ -163,6 +163,7 @@ HOSTS = {
     "instrumented": _counting(hsm.InstrumentedHsmEventProcessor),
     "queued": _counting(hsm.HsmWithQueues),
 }
+HOSTS["queued_off"] = HOSTS["queued"]      # constructed with instrumented=False, whatever the states look like
 
 
 def new_host(kind, **kw):
